@@ -589,6 +589,15 @@ func c07LimitIn(c *core.Ctx, entry *flow.Func, cons string, fetch *ast.CallExpr,
 			}
 		}
 	case *ast.SelectorExpr:
+		// the specific setting read as it is. When the package also stores into that field outside
+		// its constructor literal (a fallback resolved at load time: `if mp.limit == 0 { mp.limit =
+		// serverLimit }`), what the field holds per request is not followed here
+		if sl := entry.Info.Selections[x]; sl != nil && sl.Obj() == types.Object(specific) {
+			if at := c07FieldStoredOutsideLiteral(entry, specific); at != nil {
+				c.Undecide("R-C07-2", cons+"|effective "+what, pos(c, fetch), "the specific limit is handed to FetchPayload as it is and the package assigns to that field after construction ("+pos(c, at)+"): a fallback resolved at load time is not followed")
+				return
+			}
+		}
 		c.Violate("R-C07-2", cons+"|effective "+what, pos(c, fetch), "the limit handed to FetchPayload is not a selected value (specific value, else general value)")
 		return
 	default:
@@ -623,6 +632,27 @@ func c07LimitIn(c *core.Ctx, entry *flow.Func, cons string, fetch *ast.CallExpr,
 		return
 	}
 	c.Check(bad == nil, "R-C07-2", cons+"|effective "+what, pos(c, fetch), "specific value when non-zero, general value exactly when the specific one is 0", why, witness(bad)...)
+}
+
+// c07FieldStoredOutsideLiteral returns an assignment statement of the package that stores into
+// field fv (nil if the field is only ever set by composite literals).
+func c07FieldStoredOutsideLiteral(entry *flow.Func, fv *types.Var) ast.Node {
+	var at ast.Node
+	for _, file := range entry.Pkg.Syntax {
+		ast.Inspect(file, func(n ast.Node) bool {
+			if as, ok := n.(*ast.AssignStmt); ok && at == nil {
+				for _, l := range as.Lhs {
+					if sel, ok := ast.Unparen(l).(*ast.SelectorExpr); ok {
+						if sl := entry.Pkg.TypesInfo.Selections[sel]; sl != nil && sl.Obj() == types.Object(fv) {
+							at = as
+						}
+					}
+				}
+			}
+			return at == nil
+		})
+	}
+	return at
 }
 
 // c07ParamCallers returns the same-package callers of entry when x (an operand inside entry or one
@@ -709,7 +739,7 @@ func c07StreamFields(c *core.Ctx, recv string) map[*types.Var]bool {
 				out[fv] = true
 				continue
 			}
-			if h := muxDerefNamed(fv.Type()); h != nil && h.Obj().Pkg() == n.Obj().Pkg() && !fv.Embedded() {
+			if h := muxDerefNamed(fv.Type()); h != nil && h.Obj().Pkg() == n.Obj().Pkg() {
 				visit(h, depth+1)
 			}
 		}
@@ -1081,7 +1111,7 @@ func c07Fetch(c *core.Ctx, recv string) {
 		}
 		return flow.Unknown
 	}, inlineSamePkg(f, muxObjList(opaque)...))
-	res := muxAnalyzeInl(c, f, sent.config(flow.Config{NoHavoc: true,
+	res := muxAnalyzeInl(c, f, muxEnumSwitches(c, f, fns).config(sent.config(flow.Config{NoHavoc: true,
 		OnNode: func(st *flow.State, n ast.Node) {
 			as, ok := n.(*ast.AssignStmt)
 			if !ok || len(as.Lhs) != 1 || len(as.Rhs) != 1 {
@@ -1105,7 +1135,7 @@ func c07Fetch(c *core.Ctx, recv string) {
 				st.Set("ev:probed", flow.True)
 			}
 		},
-	}), muxObjList(opaque)...)
+	})), muxObjList(opaque)...)
 	if res == nil {
 		return
 	}
@@ -1593,6 +1623,21 @@ func c07Resp(c *core.Ctx) {
 		if fetch != nil {
 			holders = muxResultHolders(vf, fetch, 0)
 		}
+		// the rule reads "failure" as a non-nil error result; a buildResponse that reports it in
+		// another way (a bool, several results) is a form it does not follow
+		singleError := func(g *flow.Func) bool {
+			fo := muxFuncObj(g)
+			if fo == nil {
+				return false
+			}
+			rs := fo.Type().(*types.Signature).Results()
+			return rs.Len() == 1 && types.Identical(rs.At(0).Type(), types.Universe.Lookup("error").Type())
+		}
+		if !singleError(f) {
+			c.Undecide("R-C07-5", cons+"|failed fetch ⇒ error, no output response", pos(c, f.Body), "buildResponse does not report failure as a single error result: this form is not followed")
+			c.Undecide("R-C07-5", cons+"|failed buildResponse ⇒ 5xx", pos(c, f.Body), "buildResponse does not report failure as a single error result: this form is not followed")
+			return
+		}
 		if fetch != nil && len(holders) == 0 && len(outs) > 0 {
 			c.Violate("R-C07-5", cons+"|failed fetch ⇒ error, no output response", pos(c, fetch), "the error of resp.FetchPayload is discarded (the proxy reports success for a response it could not read within serverMaxBodySize)")
 		} else if fetch == nil || len(outs) == 0 {
@@ -1658,6 +1703,11 @@ func c07Resp(c *core.Ctx) {
 	}
 	for _, f := range callers {
 		cons := muxFuncConstruct(f)
+		if fo := muxFuncObj(f); fo != nil && fo.Type().(*types.Signature).Results().Len() != 1 {
+			// (serverPoolError, bool) and the like: which result carries the failure is not followed
+			c.Undecide("R-C07-5", cons+"|failed buildResponse ⇒ 5xx", pos(c, f.Body), "the caller of buildResponse returns several results: how it reports the failure is not followed")
+			continue
+		}
 		opaque := map[types.Object]bool{brObj: true}
 		fns := muxReach(f, 3, opaque)
 		vf := newMuxFlow(fns)
@@ -1677,9 +1727,74 @@ func c07Resp(c *core.Ctx) {
 			c.Errorf("R-C07-5: anchor: %s does not bind buildResponse's error", cons)
 			return
 		}
+		// the pool's deadline is known to have expired: err == context.DeadlineExceeded assumed, or
+		// a bool local defined once as that comparison known true (`timedOut := ..Err() == DeadlineExceeded`)
+		deadlineKnown := func(st *flow.State) bool {
+			for _, fact := range st.Facts() {
+				if strings.HasSuffix(fact, "==@context.DeadlineExceeded=T") {
+					return true
+				}
+				if strings.HasPrefix(fact, "v:") && strings.HasSuffix(fact, "=T") {
+					name := fact[len("v:") : len(fact)-2]
+					for o, id := range vf.ident {
+						if f.Render(id) != name {
+							continue
+						}
+						if be, ok := ast.Unparen(vf.singleDef(o)).(*ast.BinaryExpr); ok && be.Op == token.EQL {
+							if strings.HasSuffix(f.Render(be.X), "context.DeadlineExceeded") || strings.HasSuffix(f.Render(be.Y), "context.DeadlineExceeded") {
+								return true
+							}
+						}
+					}
+				}
+			}
+			return false
+		}
+		// the code of a serverPoolError literal, "" if e is none
+		speCode := func(e ast.Expr) string {
+			lit, ok := ast.Unparen(e).(*ast.CompositeLit)
+			if !ok || len(lit.Elts) < 1 {
+				return ""
+			}
+			var codeExpr ast.Expr = lit.Elts[0]
+			if kv, isKV := codeExpr.(*ast.KeyValueExpr); isKV {
+				codeExpr = kv.Value
+			}
+			if tv, has := f.Info.Types[codeExpr]; has && tv.Value != nil {
+				return tv.Value.ExactString()
+			}
+			return ""
+		}
 		res := muxAnalyzeInl(c, f, flow.Config{NoHavoc: true, OnCall: func(st *flow.State, call *ast.CallExpr, callee types.Object, d bool) {
 			if call == br {
 				st.Set("ev:built", flow.True)
+			}
+		}, OnNode: func(st *flow.State, n ast.Node) {
+			// a failure kept in a local, a default overridden later (`failure := serverPoolError{500, ..};
+			// if timedOut { failure = serverPoolError{408, ..} }; return failure`): the literal the
+			// variable holds is followed per path
+			as, ok := n.(*ast.AssignStmt)
+			if !ok || len(as.Lhs) != len(as.Rhs) {
+				return
+			}
+			for i, l := range as.Lhs {
+				id, isID := ast.Unparen(l).(*ast.Ident)
+				if !isID {
+					continue
+				}
+				pre := "ev:spe:" + f.Render(id) + "="
+				for _, fact := range st.Facts() {
+					if strings.HasPrefix(fact, pre) {
+						st.Set(fact[:len(fact)-2], flow.Unknown)
+					}
+				}
+				st.Set("ev:spe408ok:"+f.Render(id), flow.Unknown)
+				if code := speCode(as.Rhs[i]); code != "" {
+					st.Set(pre+code, flow.True)
+					if code == "408" && deadlineKnown(st) {
+						st.Set("ev:spe408ok:"+f.Render(id), flow.True)
+					}
+				}
 			}
 		}}, muxObjList(opaque)...)
 		if res == nil {
@@ -1705,11 +1820,22 @@ func c07Resp(c *core.Ctx) {
 						} else if v == "408" {
 							// the pool timeout expired while the body was read: a timeout, and the
 							// response is withheld all the same
-							for _, fact := range ex.State.Facts() {
-								if strings.HasSuffix(fact, "==@context.DeadlineExceeded=T") {
-									ok = true
-								}
+							if deadlineKnown(ex.State) {
+								ok = true
 							}
+						}
+					}
+				} else if id := muxIdentOf(r); id != nil {
+					pre := "ev:spe:" + f.Render(id) + "="
+					for _, fact := range ex.State.Facts() {
+						if !strings.HasPrefix(fact, pre) || !strings.HasSuffix(fact, "=T") {
+							continue
+						}
+						v := fact[len(pre) : len(fact)-2]
+						if len(v) == 3 && v[0] == '5' {
+							ok = true
+						} else if v == "408" && ex.State.Is("ev:spe408ok:"+f.Render(id), flow.True) {
+							ok = true
 						}
 					}
 				}
